@@ -12,7 +12,7 @@ BR_GRID = [500, 501, 600, 999, 1000, 2399, 2400, 2401, 4799, 4800, 6000, 8000, 9
 MB_GRID = [1, 2, 3, 4, 5, 6, 7, 8, 9, 10, 11, 12, 13, 16, 20, 32, 40, 64, 100, 127, 128, 251, 252, 253, 254, 255, 256, 257, 400,
            500, 508, 509, 510, 511, 1000, 1274, 1275, 1276, 1277, 1278, 1500, 2000, 2551, 2552, 2553, 2554, 3000, 3825, 3828, 3829,
            3999, 4000]
-TOLC, TOLS, FLOORS = 5, 50, 24000                          # the constants of spec/cfg/CvbrTrace.cfg (R3)
+TOLC, TOLS, FLOORS = 1, 50, 24000                          # the constants of spec/cfg/CvbrTrace.cfg (R3)
 
 # Deviations found by this check that the coordinator has not (yet) moved into known_findings.json.
 # Each entry: dict(id, property, key, what).  Matching is done by kf_match() below.
@@ -106,6 +106,7 @@ def histories_from_tlc(ctx, cfg):
             out.append(steps)
     if not out:
         raise vf.Infra("Cvbr gen emitted no history")
+    out.sort()          # TLC's workers print in no fixed order; the runs must be repeatable (R4)
     return out
 
 
@@ -126,8 +127,7 @@ def gen_exec(rng, steps, exact=0, ms=None):
             ops.append("m%d" % rng.choice(GEN_VALUES["buf"][cls]))
         elif what == "dur":
             ops.append("d%d" % rng.choice(GEN_VALUES["dur"][cls]))
-        if what != "mode" or True:
-            ops.append("e%d" % rng.randint(1, 3))
+        ops.append("e%d" % rng.randint(1, 3))
         if rng.random() < 0.2:
             ops += ["s%d" % rng.randint(0, 8), "e1"]
     return head(rng, kind, ch, exact) + " | " + " ".join(ops)
@@ -157,6 +157,62 @@ def cvbr_exec(rng, q, ms=None, seconds=3.0, switch=True):
             if rng.random() < 0.3:
                 ops.append("d%d" % rng.choice(QS)); q = int(ops[-1][1:])
     return head(rng, kind, ch, 0) + " | " + " ".join(ops)
+
+
+def dtx_cbr_execs(rng, n):
+    """VBR off with DTX on and packets of several frames: silence long enough for DTX to start and to refresh inside a packet, so that
+    packets occur in which some frames are DTX frames and others are not (they are not DTX packets and must have the CBR size)"""
+    out = []
+    for i in range(n):
+        q = [16, 24, 32, 40, 48][i % 5]
+        u = i % 4
+        if u == 0:
+            kind, ch, fs, app, extra, br = "S", rng.choice([1, 2]), rng.choice([16000, 24000, 48000]), 2049, ["x10", "o1002"], rng.choice([24000, 32000, 64000, -1000])
+        elif u == 1:
+            kind, ch, fs, app, extra, br = "S", 1, rng.choice([8000, 16000]), 2048, ["x%d" % rng.choice([5, 10])], rng.choice([12000, 16000, 20000])
+        elif u == 2:
+            kind, ch, fs, app, extra, br = "S", rng.choice([1, 2]), rng.choice([24000, 48000]), 2048, ["x10", "o1001"], rng.choice([32000, 40000, -1])
+        else:
+            kind, ch = pick_kind(rng, True); fs = rng.choice([16000, 48000]); app = 2049; extra = ["x10"]; br = rng.choice([32000, 64000]) * ch
+        pk = lambda ms: max(1, int(ms / (2.5 * q)))
+        ops = extra + ["t1", "v0", "b%d" % br, "d%d" % q, "m%d" % rng.choice([1500, 1276, 4000]), "s1", "e%d" % pk(400), "s0", "e%d" % pk(1300),
+                       "s1", "e3", "s0", "e%d" % pk(700), "s5", "e%d" % pk(500)]
+        out.append(head(rng, kind, ch, 0, fs=fs, app=app) + " | " + " ".join(ops))
+    return out
+
+
+def pad_sweep_execs(rng, quick):
+    """buffer sizes swept one by one so that the padding added to reach the CBR / OPUS_BITRATE_MAX size takes every value around the
+    255 / 510 boundaries of the padding length chain: multi-frame packets filling a buffer beyond 1276 bytes, and the last stream of a
+    multistream packet"""
+    out = []
+    sweeps = [("S", 1, 48000, 24, ["x0", "o1002"], range(1420, 1860)), ("F255", 2, 48000, 8, ["x0"], range(2540, 3100))]
+    if not quick:
+        sweeps += [("S", 2, 24000, 16, ["x0", "o1002"], range(1277, 1900)), ("S", 1, 16000, 48, ["x2", "o1002"], range(1277, 2700)),
+                   ("S", 1, 16000, 48, ["x2", "o1000"], range(1277, 2600)), ("S", 2, 48000, 40, ["x0"], range(1277, 2400)),
+                   ("L2:1", 3, 48000, 8, ["x0"], range(2540, 3400)), ("F1", 6, 48000, 16, ["x0"], range(3000, 4001, 1))]
+    for kind, ch, fs, q, extra, rg in sweeps:
+        ops = extra + ["v0", "b-1", "d%d" % q, "s%d" % rng.choice([2, 3, 7])]
+        for mb in rg:
+            ops += ["m%d" % mb, "e1"]
+        out.append(head(rng, kind, ch, 0, fs=fs, app=2049) + " | " + " ".join(ops))
+    return out
+
+
+def bust_execs(rng, n, exact):
+    """the speech layer at a rate the buffer cannot hold (narrow/medium/wideband, in-band FEC, loud input, buffers of 30..250 bytes):
+    the range encoder has to refuse to write beyond its storage and the encoder has to fall back to a valid small packet"""
+    out = []
+    for i in range(n):
+        fs = rng.choice([8000, 8000, 12000, 16000]); ch = rng.choice([1, 2, 2]); q = rng.choice([8, 16, 24, 24, 32, 48])
+        ops = ["x%d" % rng.choice([0, 5, 10]), "b%d" % rng.choice([128000, 256000, 510000, -1]), "f1", "p%d" % rng.choice([10, 30]),
+               "t0", "d%d" % q] + mode_ops(rng.choice(["vbr", "vbr", "cvbr", "cbr"]))
+        if rng.random() < 0.5:
+            ops.append("o1000")
+        for j in range(6):
+            ops += ["m%d" % rng.choice([30, 40, 60, 80, 100, 120, 127, 128, 160, 200, 250]), "s%d" % rng.choice([1, 1, 2, 3, 4, 6]), "e%d" % rng.randint(3, 8)]
+        out.append(head(rng, "S", ch, exact, fs=fs, app=2048) + " | " + " ".join(ops))
+    return out
 
 
 def boundary_execs(rng, exact):
@@ -212,6 +268,32 @@ def _hdr_len(h, n, sd):
         return None
 
 
+def _mixed_frames(h, n):
+    """True if the (standard-framing, code 3 VBR) packet holds frames of at most one byte next to larger ones"""
+    try:
+        if h[0] & 3 != 3 or not (h[1] & 128):
+            return False
+        M = h[1] & 63; pos = 2; pad = 0
+        if h[1] & 64:
+            while True:
+                x = h[pos]; pos += 1
+                if x == 255:
+                    pad += 254
+                else:
+                    pad += x
+                    break
+        sizes = []
+        for _ in range(M - 1):
+            if h[pos] >= 252:
+                sizes.append(h[pos] + 4 * h[pos + 1]); pos += 2
+            else:
+                sizes.append(h[pos]); pos += 1
+        sizes.append(n - pos - pad - sum(sizes))
+        return min(sizes) <= 1 < max(sizes)
+    except IndexError:
+        return False
+
+
 class Win:
     """the same sliding window as CvbrTrace's tracker, with the tolerance left out: reports the largest excess observed"""
     def __init__(self):
@@ -234,8 +316,8 @@ class Win:
         return res
 
 
-OBS = dict(packets=0, executions=0, cbr_packets=0, cbr_exact=0, dtx_shaped_in_cbr=0, max_fills=0, errors_buffer_too_small=0, other_errors=0,
-           tiny_buffer_calls=0, cvbr_windows_mdct=0, cvbr_windows_any=0, ms_packets=0,
+OBS = dict(packets=0, executions=0, cbr_packets=0, cbr_exact=0, dtx_shaped_in_cbr=0, max_fills=0, speech_layer_bust_packets=0, errors_buffer_too_small=0, other_errors=0,
+           tiny_buffer_calls=0, cbr_packets_with_some_dtx_frames=0, cvbr_windows_mdct=0, cvbr_windows_any=0, ms_packets=0,
            worst_mdct_excess_over_frame_target=0.0, worst_mdct_excess_ratio=0.0, worst_any_excess_ratio=0.0, worst_ms_excess_ratio=0.0,
            guard_checked=0)
 
@@ -284,8 +366,12 @@ def stats(ctx, out):
                         okp = False
                         break
                     pay += ln_i - x[0]; cnt = max(cnt, x[1]); celt = celt and h[0] >= 128
+                if not cf["ms"] and r == 2 and e["h"][0] % 4 == 0 and e["h"][1] == 0 and es["vbr"] == 1:
+                    OBS["speech_layer_bust_packets"] += 1          # TOC + one zero byte (finding F4 of C20): no C05 clause speaks about it
                 if es["vbr"] == 0:
                     OBS["cbr_packets"] += 1
+                    if not cf["ms"] and _mixed_frames(e["h"], r):
+                        OBS["cbr_packets_with_some_dtx_frames"] += 1
                     if r <= 2:
                         OBS["dtx_shaped_in_cbr"] += 1
                     elif es["br"] == -1:
@@ -456,18 +542,20 @@ def crash_line(out, ip):
 def model_runs(ctx, tier):
     t = "quick" if tier == "quick" else "thorough"
     r = ctx.mc("Cvbr_mc", "Cvbr_mc_formula_%s.cfg" % t, what="CbrFormula: encoder expression = meaning of round, all Fs x durations x bitrates x buffers",
-               workers=8, timeout=2400)
+               workers=8, timeout=2400, require_actions=["NextF"])
     if r.violation:
         raise vf.Infra("Cvbr model theorem %s violated:\n%s" % (r.violation, r.state_dump[:1500]))
     if r.distinct < 1000:
         raise vf.Infra("CbrFormula run is vacuous (%d states)" % r.distinct)
     ctx.notes["cbr_formula_cases"] = r.distinct
-    r = ctx.mc("Cvbr_mc", "Cvbr_mc_bucket_%s.cfg" % t, what="constrained-VBR bucket: reservoir and bytes bounded", workers=6, timeout=2400)
+    r = ctx.mc("Cvbr_mc", "Cvbr_mc_bucket_%s.cfg" % t, what="constrained-VBR bucket: reservoir and bytes bounded", workers=6, timeout=2400,
+               require_actions=["BSwitch", "BRestart", "BFrame"])
     if r.violation:
         raise vf.Infra("Cvbr model theorem %s violated:\n%s" % (r.violation, r.state_dump[:1500]))
     if r.distinct < 500:
         raise vf.Infra("bucket run is vacuous (%d states)" % r.distinct)
-    r = ctx.mc("Cvbr_mc", "Cvbr_mc_budget_%s.cfg" % t, what="multistream budget loop: NeverOverrun", workers=8, timeout=2400)
+    r = ctx.mc("Cvbr_mc", "Cvbr_mc_budget_%s.cfg" % t, what="multistream budget loop: NeverOverrun", workers=8, timeout=2400,
+               require_actions=["MPick", "MStream"])
     if r.violation:
         raise vf.Infra("Cvbr model theorem %s violated:\n%s" % (r.violation, r.state_dump[:1500]))
     if r.distinct < 10000:
@@ -489,7 +577,7 @@ def run(ctx):
                 "windows are counted separately in coverage.observed")
     ctx.assumptions = ["TLC 1.8.0 and the CommunityModules Json reader are trusted",
                        "a successful control call changes exactly the named setting (established by C11); the bitrate in force is the documented clamp of the requested one",
-                       "'DTX packet' = every frame at most one byte and the packet at most two bytes (multistream: every sub-packet such)",
+                       "'DTX packet' = DTX is enabled, every frame at most one byte and the packet at most two bytes (multistream: every sub-packet such); with DTX disabled no packet is exempt from the CBR size",
                        "OPUS_AUTO has no documented value: with VBR off its packets must have one constant size per (duration, buffer) while the settings stand; "
                        "equality with 60*Fs/frame_size + Fs*channels is model conformance (SPEC-DRIFT)",
                        "multistream, VBR off (loose reading of 'same for multistream with its per-stream split'): one constant size while the settings stand, "
@@ -519,11 +607,15 @@ def run(ctx):
         for q in QS:
             fast.append(cvbr_exec(rng, q, ms=(i % 3 == 2), seconds=2.4 if quick else 4.0, switch=(i % 2 == 1)))
     fast += boundary_execs(rng, 0)
+    fast += dtx_cbr_execs(rng, 40 if quick else 400)
+    fast += pad_sweep_execs(rng, quick)
+    fast += bust_execs(rng, 40 if quick else 600, 0)
     slow = boundary_execs(rng, 1)                      # sanitizer build, exact-size buffers
     for i in range(60 if quick else 700):
         slow.append(walk_exec(rng, exact=1, steps=rng.randint(8, 16), small=(i % 2 == 0)))
     for h in hist[::(12 if quick else 6)]:
         slow.append(gen_exec(rng, h, exact=1))
+    slow += bust_execs(rng, 24 if quick else 300, 1)
     rng.shuffle(fast); rng.shuffle(slow)
     ctx.notes["executions_planned"] = dict(optimised=len(fast), sanitizer=len(slow))
     exes = {}
@@ -553,6 +645,10 @@ def run(ctx):
             rp = ctx.path("crash_%s.txt" % tag)
             with open(rp, "w") as f:
                 f.write(line + "\n")
+            # R4: the abort has to repeat when the execution is run on its own
+            ip1, out1, rc1, err1 = run_lines(ctx, exes[v], [line], "recrash_%s" % tag)
+            if rc1 == 0:
+                raise vf.Infra("hx_cvbr (%s build) aborted rc=%d in [%s] but not when that execution was run alone: %s" % (v, rc, line[:300], err[-800:]))
             ctx.violation("hx_cvbr (%s build) aborted rc=%d in execution [%s]: %s" % (v, rc, line[:500], err[-1500:]), replay_src=rp)
             with open(out, "rb") as f:
                 data = f.read()
@@ -630,7 +726,7 @@ META = dict(
     level_note=("Trusted: TLC, the Json module, the harness's canary comparison. Readings (R2): multistream CBR is held to 'one constant size within one "
                 "byte of round(bitrate x duration / 8), clipped' because the property leaves the per-stream split open (the pinned encoder rounds down); "
                 "OPUS_AUTO under CBR is held to a constant size (its value is not documented); the constrained-VBR rate clause is asserted on the payload "
-                "(framing bytes left out) for explicit bitrates, tightly (5 % + two frames) where the MDCT layer's reservoir is in charge and loosely "
+                "(framing bytes left out) for explicit bitrates, tightly (1 % + two frames' targets) where the MDCT layer's reservoir is in charge and loosely "
                 "(50 %, >= 24 kb/s per channel) elsewhere, because the speech layer's rate control overshoots by up to ~17 % there and far more at lower rates "
                 "(measured; thresholds in spec/cfg/CvbrTrace.cfg and in coverage.thresholds/observed). The implementation is exercised on enumerated and "
                 "sampled histories, not on all signals; windows start at recorded points (one per 50 ms)."),
